@@ -110,6 +110,7 @@ def runRec (cfg : Cfg) : List Op → Node A → List OpRec → Node A × List Op
 
 def isConnect : Commit A → Bool
   | .connect _ _ => true
+  | .connectPrune _ _ _ => true
   | _ => false
 
 /-- 1-based index of the last connect commit among log positions (s, e]. -/
@@ -124,38 +125,89 @@ def windowStr (log : List (Commit A)) (recs : List OpRec) (k : Nat) : String :=
 def corruptStr : Corrupt → String
   | _ => "err"
 
-def handleImg (cfg : Cfg) (t : Table) (ops : List Op) (k : Nat) : String :=
-  match recover cfg (Image.empty A) with
+def isDeliver : Op → Bool
+  | .deliver _ _ => true
+  | _ => false
+
+def ackedAt (recs : List OpRec) (k : Nat) : List Chain :=
+  recs.filterMap (fun r => if r.e ≤ k then r.acked else none)
+
+/-- reopen an image and feed the deliveries again: `r=… fin=…`. -/
+def reopenStr (cfg : Cfg) (img : Image A) (acked : List Chain) (ops : List Op) (specTip : Chain) : String :=
+  match recover cfg img with
+  | .error e => s!"r=err:{corruptStr e}"
+  | .ok rn =>
+    let missing := (acked.filter (fun c => c ∉ keys rn.index)).length
+    let chain := natsStr ((suffixes rn.tip).reverse.map cid)
+    let after := runOps cfg rn (ops.filter isDeliver)
+    s!"r=ok,{cid rn.tip},{chain},{natsStr rn.utxo},{missing} fin={cid specTip};{cid after.tip};{natsStr after.utxo}"
+
+def resList (recs : List OpRec) : String := ".".intercalate (recs.map (fun r => resStr r.res))
+
+def handleImg (cfg : Cfg) (base : Image A) (ops : List Op) (k : Nat) : String :=
+  match recover cfg base with
   | .error _ => "new:err"
   | .ok nd0 =>
     let (fin, recs) := runRec cfg ops nd0 []
     let n := fin.log.length
     if k > n then s!"n={n} out-of-range" else
-    let img := replay (Image.empty A) (fin.log.take k)
-    let res := ".".intercalate (recs.map (fun r => resStr r.res))
-    let head := s!"n={n} res={res} {persStr img} w={windowStr fin.log recs k}"
+    let img := replay base (fin.log.take k)
+    s!"n={n} res={resList recs} {persStr img} w={windowStr fin.log recs k} {reopenStr cfg img (ackedAt recs k) ops fin.tip}"
+
+def handleImg2 (cfg : Cfg) (base : Image A) (ops : List Op) (k j : Nat) : String :=
+  match recover cfg base with
+  | .error _ => "new:err"
+  | .ok nd0 =>
+    let (fin, recs) := runRec cfg ops nd0 []
+    let n := fin.log.length
+    if k > n then s!"n={n} out-of-range" else
+    let img := replay base (fin.log.take k)
     match recover cfg img with
-    | .error e => s!"{head} r=err:{corruptStr e}"
+    | .error _ => s!"n={n} r1=new:err"
     | .ok rn =>
-      let acked := recs.filterMap (fun r => if r.e ≤ k then r.acked else none)
-      let missing := (acked.filter (fun c => c ∉ keys rn.index)).length
-      let chain := natsStr ((suffixes rn.tip).reverse.map cid)
-      let after := runOps cfg rn (ops.filter (fun o => match o with | .deliver _ _ => true | _ => false))
-      let _ := t
-      s!"{head} r=ok,{cid rn.tip},{chain},{natsStr rn.utxo},{missing} fin={cid fin.tip};{cid after.tip};{natsStr after.utxo}"
+      let (fin2, recs2) := runRec cfg (ops.filter isDeliver) rn []
+      let n2 := fin2.log.length
+      if j > n2 then s!"n={n} n2={n2} out-of-range" else
+      let img2 := replay img (fin2.log.take j)
+      let acked := ackedAt recs k ++ ackedAt recs2 j
+      s!"n={n} n2={n2} res2={resList recs2} {persStr img2} w1={windowStr fin.log recs k} w={windowStr fin2.log recs2 j} {reopenStr cfg img2 acked ops fin.tip}"
+
+def parsePrune (s : String) : Option (Option (Nat × Nat)) :=
+  if s == "0" then some none else
+  match s.splitOn ":" with
+  | [a, b] => do
+    let a ← a.toNat?
+    let b ← b.toNat?
+    if b == 0 || a < b then none else some (some (a, b))
+  | _ => none
+
+def setup (cache prune blocks ops : String) : Option (Cfg × Image A × List Op) := do
+  let ca ← (if cache == "0" then some true else if cache == "1" then some false else none)
+  let pr ← parsePrune prune
+  let t ← parseBlocks blocks
+  let os ← parseOps t ops
+  match pr with
+  | none => pure (⟨ca, none⟩, Image.empty A, os)
+  | some (target, fmax) => pure (⟨ca, some target⟩, { Image.empty A with fileMax := fmax }, os)
 
 def handle : List String → String
   | ["img", cache, prune, blocks, ops, k] =>
-    match (if cache == "0" then some true else if cache == "1" then some false else none),
-          parseBlocks blocks, k.toNat? with
-    | some ca, some t, some k =>
-      if k == 0 then "malformed" else
-      if prune != "0" then "unsupported" else
-      match parseOps t ops with
-      | some os => handleImg ⟨ca⟩ t os k
-      | none => "malformed"
+    match setup cache prune blocks ops, k.toNat? with
+    | some (cfg, base, os), some k => if k == 0 then "malformed" else handleImg cfg base os k
+    | _, _ => "malformed"
+  | ["torn", cache, prune, blocks, ops, k] =>
+    -- a partial block record after the write cursor is cut off by the store on open: same answer
+    match setup cache prune blocks ops, k.toNat? with
+    | some (cfg, base, os), some k => if k == 0 then "malformed" else handleImg cfg base os k
+    | _, _ => "malformed"
+  | ["img2", cache, prune, blocks, ops, k, j] =>
+    match setup cache prune blocks ops, k.toNat?, j.toNat? with
+    | some (cfg, base, os), some k, some j =>
+      if k == 0 || j == 0 then "malformed" else handleImg2 cfg base os k j
     | _, _, _ => "malformed"
   | "img" :: _ => "malformed"
+  | "torn" :: _ => "malformed"
+  | "img2" :: _ => "malformed"
   | _ => "bad-op"
 
 end BV.C04.Driver
